@@ -240,7 +240,6 @@ structure Env.HoldsProblem (p : Problem K) (mat : SMat K) (cov : Cov.BlockDiag K
   dims : (dimsOf p).sum = p.m
   built : cov.Built (Env.covMats p) tail
   wf : mat.WF
-  nodup : mat.nodupRows = true
   rows : mat.rows = p.m
   cols : mat.cols = p.n
   rhs : p.rhs.size = p.m
@@ -263,7 +262,7 @@ theorem hom_run_eq_homogenize (hsq : IsSqrt (SqrtFn.sq : K → K)) (p : Problem 
       out.sm.rows = p.m ∧ out.sm.cols = p.n ∧
       ∀ s c, s < p.m → c < p.n →
         Cov.denseRow (@SMat.rowEntries K ⟨0⟩ out.sm (s + 1)) (c + 1) = Env.mget h.At s c := by
-  obtain ⟨hwf, hdim, hcov, hmat, hnodup, hrows, hcols, hrhs, hrep, _⟩ := H
+  obtain ⟨hwf, hdim, hcov, hmat, hrows, hcols, hrhs, hrep, _⟩ := H
   let _ : Cov.SqrtFn K := ⟨(SqrtFn.sq : K → K)⟩
   have hCwf : ∀ C ∈ Env.covMats p, C.WF := by
     intro C hC
@@ -271,7 +270,7 @@ theorem hom_run_eq_homogenize (hsq : IsSqrt (SqrtFn.sq : K → K)) (p : Problem 
     exact Env.blockMat_WF b (hwf b hb)
   have hrows' : mat.rows = ((Env.covMats p).map (·.dim)).sum := by rw [covMats_dims, hdim, hrows]
   obtain ⟨h1, h2, h3⟩ := @Cov.Hom.run_spec K _ _ _ _ (Env.hsq_of_isSqrt hsq) (Env.bdTol : K) Env.bdTol_pos
-    mat cov p.rhs (Env.covMats p) tail hcov hCwf hmat hrows' (by rw [hrhs, hrows]) hnodup
+    mat cov p.rhs (Env.covMats p) tail hcov hCwf hmat hrows' (by rw [hrhs, hrows])
   have hacc : (∀ k (hk : k < (Env.covMats p).length), ∃ F,
         @Cov.bdCholBlock K (Cov.fieldScalar K (SqrtFn.sq : K → K)) (Env.bdTol : K) ((Env.covMats p)[k]) = .ok F) ↔
       ∃ Fs, Env.factorsU p.cov.toList = some Fs := by
